@@ -31,7 +31,13 @@ CFG = dict(
              "tags, remotes, other} x DESTINATION kind {heads, tags, remotes, other} (every pair) x destination "
              "present/absent x per-refspec + x --force (1024 each; the rules and the oracle's tag protection are keyed "
              "on the destination name); quick tier keeps a hashed 1/2, 1/4, 1/6, 1/8 of the fetch/push/pull/cross-kind tables, "
-             "thorough all of them under 3 timestamp regimes; witnesses: a branch fetched / pushed onto an existing tag (descendant commit, no force: must be refused) and a tag "
+             "thorough all of them under 3 timestamp regimes; SHARED-COMMIT multi-ref operations (2-4 refs in one invocation): every destination receives the SAME new commit "
+             "but holds a different old value {ancestor, diverged, unrelated/ahead, equal, absent}, relations assigned to the "
+             "names a<b<c<... in every rotation, reversed rotation, ordered pair and triple, x --force x ('+' on no ref / "
+             "first ref only / last ref only), for fetch (one glob refspec and exact refspecs), push (both argument orders) "
+             "and pull (two refspecs, fetch half judged per ref), and the converse (one old value, different new commits); "
+             "each ref is judged on its own old/new pair (C10_frame); quick keeps a hashed 1/12..1/16 plus always-run "
+             "witnesses; witnesses: a branch fetched / pushed onto an existing tag (descendant commit, no force: must be refused) and a tag "
              "onto an existing branch, glob fetch with mixed outcomes and uncovered "
              "tags, short-ref glob (panicked before fix 598c9ec), multi-item push with deletes under denyDeletes/denyNonFF, missing push source, "
              "pull-new-branch-glob; random: 3..10-commit DAGs, 6 ref names, multi-ref fetch (glob + tag + custom specs) "
